@@ -325,6 +325,9 @@ WRITERS = {
     "vtt-norel": _cfg(lambda: WebVTTWriter(relativize=False, fit_to_screen=False)),
     "vtt-video": _cfg(lambda: WebVTTWriter(video_width=1280, video_height=720)),
     "vtt-lang": _cfg(lambda: WebVTTWriter(), lambda w, cs: w.write(cs, lang=cs.get_languages()[-1]), only="last"),
+    "vtt-first": _cfg(lambda: WebVTTWriter(), lambda w, cs: w.write(cs, lang=cs.get_languages()[0]), only="first"),
+    "vtt-second": _cfg(lambda: WebVTTWriter(), lambda w, cs: w.write(cs, lang=cs.get_languages()[min(1, len(cs.get_languages()) - 1)]),
+                       only="second"),
     "mdvd": _cfg(lambda: MicroDVDWriter()),
     "dfxp": _cfg(lambda: DFXPWriter()),
     "dfxp-inline": _cfg(lambda: DFXPWriter(write_inline_positioning=True)),
@@ -335,7 +338,7 @@ WRITERS = {
     "single": _cfg(lambda: SinglePositioningDFXPWriter()),
     "single-custom": _cfg(lambda: SinglePositioningDFXPWriter(default_positioning=L2, relativize=False)),
 }
-KINDS.update({"srt-opts": 0, "vtt-norel": 3, "vtt-video": 3, "vtt-lang": 3, "dfxp-opts": 1, "dfxp-force": 1,
+KINDS.update({"vtt-first": 3, "vtt-second": 3, "srt-opts": 0, "vtt-norel": 3, "vtt-video": 3, "vtt-lang": 3, "dfxp-opts": 1, "dfxp-force": 1,
               "legacy-force": 2, "single-custom": 2})
 
 
@@ -358,6 +361,8 @@ def observe(kind, cs, langs_spans):
             want = [nl - 1]
         elif cfg["only"] == "first":
             want = [0]
+        elif cfg["only"] == "second":
+            want = [min(1, nl - 1)]
         elif fam == "vtt":
             want = [0]
         if fam == "srt":
@@ -475,6 +480,56 @@ def stream_dfxp_doc_text(ctx, res):
     res["notes"].append("DFXP documents whose text differs from the string-level writer model's (layout of the document is "
                         "not fixed by the property: recorded, not failing; the captions read back must be the same): %d" % ndiff)
 
+# ---- last round: ONE writer object reused after a write() that RAISED part-way ----------------------------------------
+def stream_reuse_after_error(ctx, res):
+    """a writer object first writes a set whose LATER caption is positioned in pixels although the writer knows no video
+    size (RelativizationError after at least one cue was emitted; writers that do not relativize just write it), then the
+    SAME object writes a valid set: its timing output must be a fresh writer's (SAMI: no blank sync from a stale
+    last_time) and satisfy the oracle."""
+    from pycaption.geometry import Point, Size, UnitEnum
+    rng = ctx.rng
+    dist = res["distribution"]
+    px = Layout(origin=Point(Size(100, UnitEnum.PIXEL), Size(50, UnitEnum.PIXEL)))
+    makers = {"srt": SRTWriter, "vtt": WebVTTWriter, "mdvd": MicroDVDWriter, "dfxp": DFXPWriter, "legacy": LegacyDFXPWriter,
+              "single": SinglePositioningDFXPWriter, "sami": SAMIWriter}
+    toks = {"srt": lambda o: tokens_srt(o)[0], "vtt": tokens_vtt, "mdvd": tokens_mdvd,
+            "dfxp": lambda o: tokens_dfxp(o).get(LANGS[0], []), "legacy": lambda o: tokens_dfxp(o).get(LANGS[0], []),
+            "single": lambda o: tokens_dfxp(o).get(LANGS[0], []), "sami": lambda o: tokens_sami(o).get(LANGS[0], [])}
+    raised = 0
+    for _ in range(ctx.n(12, 300)):
+        t0 = rng.choice([0, 1000, 999999, 3599999000])
+        bad_caps = [Caption(t0 + 1000, t0 + 2500, [CaptionNode.create_text("first")]),
+                    Caption(t0 + 3000 + rng.choice([0, 1, 999]), t0 + 5000 + rng.choice([0, 500, 999]),
+                            [CaptionNode.create_text("px", layout_info=px)], layout_info=px)]
+        if rng.random() < 0.5:
+            bad_caps.insert(1, Caption(t0 + 2500, t0 + 2999, [CaptionNode.create_text("second")]))
+        bad = CaptionSet({LANGS[0]: CaptionList(bad_caps)})
+        spans = [(int(a), int(b)) for (a, b) in gen_spans(rng, sorted_only=True)]
+        good, _ = build_set([spans], 0)
+        for kind, mk in makers.items():
+            res["evaluations"] += 1
+            w = mk()
+            first = impl.call(lambda: w.write(bad))
+            if isinstance(first, Err):
+                raised += 1
+            reused = impl.call(lambda: toks[kind](w.write(good)))
+            fresh = impl.call(lambda: toks[kind](mk().write(good)))
+            if kind == "sami":
+                ok = isinstance(reused, Ok) and oracle1(203, [wire_caps(spans), reused.v]) == 1
+            else:
+                ok = isinstance(reused, Ok) and oracle1(201, [KINDS[kind], wire_caps(spans), [1] * len(spans), reused.v]) == 1
+            same_as_fresh = isinstance(reused, Ok) and isinstance(fresh, Ok) and reused.v == fresh.v
+            if not ok or not same_as_fresh:
+                res["violations"].append({
+                    "kind": kind + "-reused-after-error", "writer": kind, "replay": "reuse-after-error",
+                    "what": "%s writer object reused after a write() that %s: timing output %s for the captions %s; a fresh "
+                            "writer gives %s" % (kind, "raised" if isinstance(first, Err) else "succeeded",
+                                                 reused.v if isinstance(reused, Ok) else repr(reused), spans,
+                                                 fresh.v if isinstance(fresh, Ok) else repr(fresh)),
+                    "input": [[list(map(repr, se)) for se in spans]], "lang_index": 0, "t0": t0,
+                    "three": len(bad_caps) == 3})
+    dist["writer_objects_reused_after_a_write_that_raised"] = raised
+
 
 def run(ctx):
     rng = ctx.rng
@@ -491,6 +546,11 @@ def run(ctx):
         two = rng.randrange(1, 10**6) if rng.random() < 0.35 else 0
         # every language arbitrary: unsorted, overlapping, runs of equal spans, zero-length, or a sorted timeline
         langs = [gen_spans(rng, sorted_only=(rng.random() < 0.4)) for _ in range(nl)]
+        if nl > 1 and rng.random() < 0.2:
+            # last round: SOME language of the set has an EMPTY caption list (first / middle / last); every writer must
+            # still write every cue of the other languages
+            langs[rng.randrange(nl)] = []
+            dist["sets_with_an_empty_language"] = dist.get("sets_with_an_empty_language", 0) + 1
         cases.append((langs, two))
     # ---- the line / xml writers, with constructor and write() options varied ---------------------------
     base_kinds = ["srt", "vtt", "mdvd", "dfxp", "legacy", "single"]
@@ -505,7 +565,8 @@ def run(ctx):
         for spans in langs:
             groups.append(fg[i0:i0 + len(spans)])
             i0 += len(spans)
-        for kind in base_kinds + rng.sample(opt_kinds, 3):
+        extra_kinds = ["vtt-lang", "vtt-first", "vtt-second"] if any(not sp for sp in langs) else []
+        for kind in base_kinds + extra_kinds + [k for k in rng.sample(opt_kinds, 3) if k not in extra_kinds]:
             obs = observe(kind, cs, langs)
             want = sorted(obs.v) if isinstance(obs, Ok) else [0]
             for li in want:
@@ -654,6 +715,7 @@ def run(ctx):
                         "admissible value of a non-integer time): %d (recorded, not failing)"
                         % dist["tokens_differing_from_model_but_accepted"])
     stream_dfxp_doc_text(ctx, res)
+    stream_reuse_after_error(ctx, res)
     if ctx.thorough:
         sweep(ctx, res)
     res["rule"] = ("caption sets of 1-3 languages, 1-6 captions, EVERY language arbitrary (runs, overlaps, unsorted, "
@@ -774,6 +836,22 @@ def parse_time(r):
 
 
 def replay(ctx, rec):
+    if rec.get("replay") == "reuse-after-error":
+        from pycaption.geometry import Point, Size, UnitEnum
+        px = Layout(origin=Point(Size(100, UnitEnum.PIXEL), Size(50, UnitEnum.PIXEL)))
+        makers = {"srt": SRTWriter, "vtt": WebVTTWriter, "mdvd": MicroDVDWriter, "dfxp": DFXPWriter, "legacy": LegacyDFXPWriter,
+                  "single": SinglePositioningDFXPWriter, "sami": SAMIWriter}
+        t0 = rec.get("t0", 0)
+        bad = CaptionSet({LANGS[0]: CaptionList([Caption(t0 + 1000, t0 + 2500, [CaptionNode.create_text("first")]),
+                                                 Caption(t0 + 3000, t0 + 5000, [CaptionNode.create_text("px", layout_info=px)],
+                                                         layout_info=px)])})
+        spans = [(parse_time(s), parse_time(e)) for (s, e) in rec["input"][0]]
+        good, _ = build_set([spans], 0)
+        w = makers[rec["writer"]]()
+        impl.call(lambda: w.write(bad))
+        a = impl.call(lambda: w.write(good))
+        b = impl.call(lambda: makers[rec["writer"]]().write(good))
+        return not (isinstance(a, Ok) and isinstance(b, Ok) and a.v == b.v), repr(a)[:300]
     if rec.get("replay") == "dfxp-doc":
         from pycaption import DFXPWriter, DFXPReader, CaptionSet, CaptionList, Caption, CaptionNode
         lang, caps = rec["input"]
